@@ -682,7 +682,9 @@ def function(
                 intermediate_repr["returns"]["return_type"]["default"].strip("`")
             )
             .body[0]
-            .value,
+            .value
+            if isinstance(intermediate_repr["returns"]["return_type"]["default"], str)
+            else set_value(intermediate_repr["returns"]["return_type"]["default"]),
             expr=None,
         )
         if (intermediate_repr.get("returns") or {"return_type": {}})["return_type"].get(
